@@ -99,6 +99,7 @@ pub struct LayoutInfo {
     pub touching: usize,
     pub final_newline: bool,
     pub lone_cr: usize,
+    pub pragma_value_respaced: usize,
 }
 
 /// A random layout driven by the tape.  Returns the text and per-token byte offsets.
@@ -159,13 +160,33 @@ pub fn random_layout(toks: &[Tok], t: &mut Tape) -> (String, Vec<usize>, LayoutI
         }
         seps.push(sep);
     }
+    // the value of a pragma is one lexer token, but the blanks between its version constraints are
+    // layout all the same: each run of blanks inside it becomes a tape-chosen run of white space
+    let mut texts: Vec<String> = toks.iter().map(|tk| tk.text.clone()).collect();
+    for (i, tk) in toks.iter().enumerate() {
+        let is_value = tk.in_pragma && i >= 2 && toks[i - 2].text == "pragma" && tk.text.contains(' ');
+        if is_value {
+            let parts: Vec<&str> = tk.text.split(' ').filter(|p| !p.is_empty()).collect();
+            let mut v = String::new();
+            for (k, part) in parts.iter().enumerate() {
+                if k > 0 {
+                    v.push_str(*t.pick(&[" ", " ", "\t", "\n", "  ", "\r\n", " \t ", "\n\n"]));
+                }
+                v.push_str(part);
+            }
+            if v != tk.text {
+                info.pragma_value_respaced += 1;
+            }
+            texts[i] = v;
+        }
+    }
     let build = |seps: &[String]| {
         let mut s = String::new();
         let mut offs = Vec::with_capacity(toks.len());
-        for (i, tk) in toks.iter().enumerate() {
+        for (i, _tk) in toks.iter().enumerate() {
             s.push_str(&seps[i]);
             offs.push(s.len());
-            s.push_str(&tk.text);
+            s.push_str(&texts[i]);
         }
         s.push_str(&seps[toks.len()]);
         (s, offs)
@@ -188,8 +209,10 @@ pub fn random_layout(toks: &[Tok], t: &mut Tape) -> (String, Vec<usize>, LayoutI
 }
 
 pub fn same_tokens(text: &str, toks: &[Tok]) -> bool {
+    // pragma values are compared modulo the white space between their constraints
+    let norm = |s: &str| s.split_whitespace().collect::<Vec<_>>().join(" ");
     match tokenize(text) {
-        Some(t2) => t2.len() == toks.len() && t2.iter().zip(toks).all(|(a, b)| a.text == b.text),
+        Some(t2) => t2.len() == toks.len() && t2.iter().zip(toks).all(|(a, b)| a.text == b.text || (a.in_pragma && b.in_pragma && norm(&a.text) == norm(&b.text))),
         None => false,
     }
 }
